@@ -100,6 +100,26 @@ def run(ctx, budget=1.0):
         else:
             res.traces_validated += 1
     res.sample({"word": words[700], "impl": items[700][1]})
+    # 2b. the library must hand out fresh lists: callers extend returned gate lists in place (wrapper merging does `ops + gate_list`,
+    #     user code appends); scribble over every returned list, then look the words up again
+    for w in words[:400]:
+        try:
+            out = ops.simplify_local_clifford([cls[n] for n in w])
+            out.reverse()
+            out.append(ops.Hadamard)
+        except Exception:  # noqa: BLE001
+            pass
+    for w, (inp, impl) in list(zip(words, items))[:400]:
+        res.evaluations += 1
+        try:
+            out2 = [c.__name__ for c in ops.simplify_local_clifford([cls[n] for n in w])]
+            again = ",".join(out2) if out2 else "-"
+        except Exception as e:  # noqa: BLE001
+            again = "err " + err_class(e)
+        if again != impl:
+            res.violation("simplify:not-reproducible-after-caller-mutation", "simplifying the same word again returns a different list after a caller modified a previously returned list in place",
+                          input=inp, first=impl, second=again)
+            break
     # 3. non-Clifford rejected; Clifford with a random global phase accepted
     tgate = np.diag([1, np.exp(1j * np.pi / 4)])
     cands = [("T", tgate), ("sqrtH", _sqrtm(tu.H))]
@@ -163,16 +183,27 @@ def wrapper_order(res, impl24, cls):
     from graphiq.backends.stabilizer.compiler import StabilizerCompiler
     from graphiq.circuit.circuit_dag import CircuitDAG
 
+    import graphiq.noise.noise_models as nm
+
     extra = [["Phase", "Hadamard"], ["Hadamard", "Phase", "SigmaX"], ["SigmaY", "Phase", "Hadamard", "Phase"]]
+    # how the wrapper carries noise descriptors (ideal compilation, noise simulation off, must ignore them): default, a list with one
+    # entry per gate, one model for the whole wrapper placed after / before the gate
+    variants = [("default", lambda k: None), ("per-gate-list", lambda k: [nm.NoNoise() for _ in range(k)]),
+                ("single-after", lambda k: nm.DepolarizingNoise(0.1)), ("single-before", lambda k: _before(nm.DepolarizingNoise(0.1)))]
     for w in impl24 + extra:
+      for vname, mk in variants:
         for reg_type in ("e", "p"):
             res.evaluations += 1
-            inp = {"wrapper": w, "on": reg_type}
+            inp = {"wrapper": w, "on": reg_type, "noise_descriptor": vname}
             c = CircuitDAG(n_emitter=1, n_photon=1, n_classical=0)
             c.add(ops.Hadamard(register=0, reg_type="e"))
             c.add(ops.Phase(register=0, reg_type="e"))
             c.add(ops.CNOT(control=0, control_type="e", target=0, target_type="p"))
-            c.add(ops.OneQubitGateWrapper([cls[n] for n in w], register=0, reg_type=reg_type))
+            noise = mk(len(w))
+            if noise is None:
+                c.add(ops.OneQubitGateWrapper([cls[n] for n in w], register=0, reg_type=reg_type))
+            else:
+                c.add(ops.OneQubitGateWrapper([cls[n] for n in w], register=0, reg_type=reg_type, noise=noise))
             # reference: qubit order photon(0), emitter(1)
             n = 2
             rho = np.zeros((4, 4), dtype=complex)
@@ -194,8 +225,13 @@ def wrapper_order(res, impl24, cls):
             if not np.allclose(tu.dense_rho(st), rho, atol=1e-9):
                 res.violation("wrapper:stabilizer-order", "stabilizer backend does not apply the wrapper as the matrix product of its list", input=inp)
             if len(w) >= 2:
-                res.nontrivial("wrapper", tuple(w), reg_type)
+                res.nontrivial("wrapper", tuple(w), reg_type, vname)
             res.traces_validated += 1
+
+
+def _before(noise):
+    noise.noise_parameters["After gate"] = False
+    return noise
 
 
 def search(ctx, res, proof_broken):
